@@ -25,7 +25,7 @@ CHECKS = {
     "C03": ("model_checking", "3 C03",
             "Every interleaving of deepen()/make_children up to N operations on all partition variants (states de-duplicated on a "
             "canonical tree digest), plus the same index/tree invariant after every round of E-full/E-dev explorations of every "
-            "tree-building algorithm (incl. learners inside POO/GPO).",
+            "tree-building algorithm (incl. learners inside POO/GPO, StroquOOL budgets 600/1000), with get_last_point() as a choice point after any round.",
             "Public getters report the real state; bounds N, T, k in coverage.bounds.",
             "explicit-state exploration (E-ops) + stateless script enumeration of algorithm runs, invariant oracle on every state"),
     "C04": ("model_checking", "3 C04",
@@ -85,7 +85,7 @@ CHECKS = {
             "exhaustive enumeration of schedules (E-sched) and scripts against a reference model of the published phase machine"),
     "C10": ("model_checking", "3 C10",
             "POO x 4 rho_max x 3 base names x {stub, real learners}: every reward sequence in {0,1,-1}^8 and deviation-bounded scripts over "
-            "100-400 rounds (creation batches and round-robin passes); per round exactly one learner pulled and rewarded, learners only "
+            "100-400 rounds (creation batches and round-robin passes) and every horizon T in 2..130 with budget = T; per round exactly one learner pulled and rewarded, learners only "
             "added on the published rho grid, scores/counts equal the mean/length of each learner's own ledger, recommendation = next proposal of a best learner.",
             "rho_max >= 0.84 (finding D7 of C01 below that); ties between learners free.",
             "stateless bounded-exhaustive script enumeration of the implementation with recording learners against a routing/score ledger"),
@@ -160,7 +160,7 @@ def main():
                      "kind_free_text": "hand-written stateless bounded-exhaustive explorer (CHESS-style script enumeration with deviation bounds) driving the real PyXAB objects in-process, reference models as lock-step checkers"}],
         "checks": checks,
         "not_applicable": na,
-        "notes": "Exit codes: 0 held (KNOWN-FINDING lines allowed), 1 VIOLATION, 2 harness error. Genuine defects repaired by 'fix:' commits in /repo and recorded in known_findings.json.",
+        "notes": "Exit codes: 0 held (KNOWN-FINDING lines allowed), 1 VIOLATION, 2 harness error. Genuine defects repaired by 'fix:' commits in /repo and recorded in known_findings.json. The thorough tier has a wall-clock budget per check (XMC_BUDGET seconds, default 1500) and per task (XMC_TASK_CAP, default 600): an enumeration cut by it is reported in the evidence (exhaustive: false, caps_hit), never as a verdict.",
     }
     with open(os.path.join(HERE, "MANIFEST.json"), "w") as f:
         json.dump(man, f, indent=1)
